@@ -1,4 +1,11 @@
 ---- MODULE MC_Ownership ----
 EXTENDS Ownership
 AllFuncs == 1..Len(Funcs)
+\* indexes into the hand-made sample of spec/OwnData.tla (harness/drivers/c06.py sample_functions)
+SampleGood      == {1, 2, 3, 4}
+SampleLeak      == {5}
+SampleDouble    == {6}
+SampleUndef     == {7}
+SampleUseAfter  == {8}
+SampleUnchecked == {9}
 ====
